@@ -147,6 +147,10 @@ def main(seed, ncases, driver, out):
                 cmp("vector @ " + tag, Yf[0] @ Q, [mmul(Yr, D)[0]])
                 cmp(tag + ".rmatvec", Q.rmatvec(Xf[:, 0]), [[r[0]] for r in mmul(madj(D), X)])
                 cmp(tag + " @ identity", Q @ np.eye(n), D)
+                # the same on tiny operands (high orders, small units): the operator is linear, the error relative to the operand
+                for tiny in (2.0 ** -34, 2.0 ** -44):
+                    g1 = np.asarray(Q @ (Xf * tiny)) / tiny; g2 = np.asarray((Yf * tiny) @ Q) / tiny; g3 = np.asarray(Q.rmatvec(Xf[:, 0] * tiny)) / tiny
+                    cmp(tag + " @ tiny matrix", g1, mmul(D, X)); cmp("tiny matrix @ " + tag, g2, mmul(Yr, D)); cmp(tag + ".rmatvec(tiny)", g3, [[r[0]] for r in mmul(madj(D), X)])
                 if kind.startswith("biorthogonal"): cmp(tag + " @ " + tag + " @ matrix (idempotent)", Q @ (Q @ Xf), mmul(D, X))
                 # the projector composed with itself and with its own transpose / adjoint / conjugate, as operators
                 w2, Q2 = pool[rnd.randrange(len(pool))]; D2 = model_dense(w2); tag2 = "P" + "".join("." + o for o in w2)
